@@ -237,9 +237,10 @@ class CuboidalDescription(ShapeDescriptionBase):
     
     def __init__(self):
         super().__init__()
-        self.eqRadiusFactorMin = self.eqRadiusFactor(1)
+        #Values of a cube (aspect ratio 1); the public functions return the *Min values themselves at an aspect ratio of 1
+        self.eqRadiusFactorMin = self._eqRadius(1)
         self.kineticFactorMin = self.kineticFactor(1.0001)
-        self.thermoFactorMin = self.thermoFactor(1)
+        self.thermoFactorMin = self._thermoFactor(1)
 
     def _eqRadius(self, ar):
         '''
